@@ -158,6 +158,7 @@ class Process(StateMachine, persistence.Savable, metaclass=ProcessStateMachineMe
     _paused: Optional[persistence.SavableFuture] = None
     _killing: Optional[futures.CancellableAction] = None
     _interrupt_action: Optional[futures.CancellableAction] = None
+    _stale_interruption: Optional[process_states.Interruption] = None
     _closed = False
     _cleanups: Optional[List[Callable[[], None]]] = None
 
@@ -1203,7 +1204,9 @@ class Process(StateMachine, persistence.Savable, metaclass=ProcessStateMachineMe
         """
         if not self.paused:
             if self._pausing is not None:
-                # Not going to pause after all
+                # Not going to pause after all. The interruption may already have been delivered to the state, in which
+                # case ``step`` has to ignore it when it comes out
+                self._stale_interruption = self._pausing.cookie
                 self._pausing.cancel()
                 self._pausing = None
                 self._set_interrupt_action(None)
@@ -1327,7 +1330,8 @@ class Process(StateMachine, persistence.Savable, metaclass=ProcessStateMachineMe
         """
         assert not self.has_terminated(), 'Cannot step, already terminated'
 
-        if self.paused and self._paused is not None:
+        while self._paused is not None and not self._paused.done():
+            # Loop because the process can have been played and paused again before this coroutine got to run
             await self._paused
 
         if self.has_terminated():
@@ -1340,14 +1344,12 @@ class Process(StateMachine, persistence.Savable, metaclass=ProcessStateMachineMe
             try:
                 next_state = await self._run_task(self._state.execute)
             except process_states.Interruption as exception:
-                # If the interruption was caused by a call to a Process method then there should
-                # be an interrupt action ready to be executed, so just check if the cookie matches
-                # that of the exception i.e. if it is the _same_ interruption.  If not cancel and
-                # build the interrupt action below
-                if self._interrupt_action is not None:
-                    if self._interrupt_action.cookie is not exception:
-                        self._set_interrupt_action_from_exception(exception)
-                else:
+                # If the interruption was caused by a call to a Process method then there is an interrupt action ready
+                # to be executed, unless the request was withdrawn in the meantime, in which case the interruption is
+                # stale and the state simply gets executed again. The action may belong to a later request than the
+                # interruption that came out (the state can only be interrupted once), the latest request is what
+                # counts. If the interruption comes from elsewhere build the action for it.
+                if exception is not self._stale_interruption and self._interrupt_action is None:
                     self._set_interrupt_action_from_exception(exception)
 
             except KeyboardInterrupt:
